@@ -60,6 +60,11 @@ int main(int argc, char** argv) {
          thdm::Mass_basis b = gen::rand_mass_basis(r, op);
          if (light) { b.m122 = r.U(-1, 1) * 10; if (r.chance(0.2)) { double* ms[3] = {&b.mH, &b.mA, &b.mHp}; *ms[r.range(3)] = 0.1056583715 * (1 + r.sign() * r.LU(1e-15, 1e-2)); if (b.mh > b.mH) b.mh = b.mH * r.u01(); } }
          else if (r.chance(0.5)) { b.mh = r.LU(10, 300); b.mH = r.LU(b.mh, 1e4); }
+         // exactly degenerate heavy states (custodial mA = mH+, mH = mA, all three): the lightest new state is then not unique
+         std::string degen;
+         if (r.chance(0.2)) { const int k = r.range(5);
+            if (k == 0) { b.mHp = b.mA; degen = "|mA=mHp"; } else if (k == 1) { b.mA = b.mH; degen = "|mH=mA"; } else if (k == 2) { b.mHp = b.mH; degen = "|mH=mHp"; } else if (k == 3) { b.mA = b.mHp = b.mH; degen = "|mH=mA=mHp"; }
+            else { b.mHp = b.mA; if (b.mH < b.mA) std::swap(b.mH, b.mA), b.mHp = b.mA; if (b.mh > b.mH) b.mh = 0.5 * b.mH; degen = "|mA=mHp<mH"; } }
          thdm::Config cfg; cfg.running_couplings = r.chance(0.5); cfg.force_output = light;
          J c = gen::json(b); c.str("model", "THDM").i("running", cfg.running_couplings).i("force", cfg.force_output);
          try {
@@ -74,7 +79,7 @@ int main(int argc, char** argv) {
             const double pi = 3.14159265358979323846;
             const double u2ref = 2e-12 + (std::fabs(a1) + std::fabs(a2)) * std::fabs(4 * m.get_alpha_em() / pi * std::log(mNP / mm));
             const std::string cell = std::string("THDM|type") + std::to_string(static_cast<int>(b.yukawa_type)) + (light ? "|mNP~mmu" : "|heavy") + (cfg.running_couplings ? "|run" : "|norun") +
-               "|a1a2" + ((a1 > 0) == (a2 > 0) ? "same" : "opposite") + (mNP < mm ? "|mNP<mmu" : "");
+               "|a1a2" + ((a1 > 0) == (a2 > 0) ? "same" : "opposite") + (mNP < mm ? "|mNP<mmu" : "") + degen + (!degen.empty() && (vh::same_bits(m.get_MAh(1), m.get_MHm(1)) || vh::same_bits(m.get_MAh(1), m.get_Mhh(1)) || vh::same_bits(m.get_MHm(1), m.get_Mhh(1))) ? "(bit-identical masses)" : "");
             o.cell(cell, rel(u2, u2ref), &c);
             if (!(fin(u0) && fin(u1) && fin(u2))) o.fail("C18:THDM:nonfinite", "uncertainty not finite for finite a_mu", c);
             else {
